@@ -33,9 +33,9 @@ structure Codec where
   mayRefuse : String → List Ev → Bool := fun _ _ => false
   /-- documents one after the other on ONE encoder: per document (bytes, depths); none = an event failed -/
   encDocs : String → List (List XEv) → Option (List (Bytes × String))
-  /-- documents one after the other on ONE parser (Write + end-of-input check each): per
-  document (events, depths); none = an error -/
-  parseDocs : List Bytes → Option (List (List Ev × String))
+  /-- documents one after the other on ONE parser (mode W: Write + end-of-input check each;
+  mode P: the Parse method): per document (events, depths); none = an error -/
+  parseDocs : String → List Bytes → Option (List (List Ev × String))
   /-- ParseReader over chunks: events delivered and the parser's own error class -/
   parseEvents : List Bytes → List Ev × String
   /-- a never-failing encoder fed with basic events: bytes written, index of the first failing event -/
